@@ -160,6 +160,9 @@ class SmtLibSolver(Solver): # TODO this class is defined twice in pysmt. Here an
     @clear_pending_pop
     def reset_assertions(self):
         self._send_silent_command(SmtLibCommand(smtcmd.RESET_ASSERTIONS, []))
+        # reset-assertions removes every level and every declaration
+        self.declared_vars = [set()]
+        self.declared_sorts = [set()]
         return
 
     @clear_pending_pop
@@ -179,14 +182,17 @@ class SmtLibSolver(Solver): # TODO this class is defined twice in pysmt. Here an
 
     @clear_pending_pop
     def push(self, levels=1):
-        self.declared_vars.append(set())
-        self.declared_sorts.append(set())
+        # One frame of declarations per level
+        for _ in range(levels):
+            self.declared_vars.append(set())
+            self.declared_sorts.append(set())
         self._send_silent_command(SmtLibCommand(smtcmd.PUSH, [levels]))
 
     @clear_pending_pop
     def pop(self, levels=1):
-        self.declared_vars.pop()
-        self.declared_sorts.pop()
+        for _ in range(levels):
+            self.declared_vars.pop()
+            self.declared_sorts.pop()
         self._send_silent_command(SmtLibCommand(smtcmd.POP, [levels]))
 
     def get_value(self, item):
@@ -204,10 +210,13 @@ class SmtLibSolver(Solver): # TODO this class is defined twice in pysmt. Here an
 
     def get_model(self):
         assignment = {}
-        for s in self.declared_vars[-1]:
-            if s.is_term():
-                v = self.get_value(s)
-                assignment[s] = v
+        # All the frames are considered: symbols declared before a
+        # push are still part of the model
+        for frame in self.declared_vars:
+            for s in frame:
+                if s.is_term():
+                    v = self.get_value(s)
+                    assignment[s] = v
         return EagerModel(assignment=assignment, environment=self.environment)
 
     def _exit(self):
